@@ -244,6 +244,9 @@ func plainGet(port, host, target string) (*http.Response, error) {
 		return nil, err
 	}
 	defer conn.Close()
+	if tc, ok := conn.(*net.TCPConn); ok {
+		tc.SetLinger(0)
+	}
 	conn.SetDeadline(time.Now().Add(3 * time.Second))
 	fmt.Fprintf(conn, "GET %s HTTP/1.1\r\nHost: %s\r\nConnection: close\r\n\r\n", target, host)
 	return http.ReadResponse(bufio.NewReader(conn), &http.Request{Method: "GET"})
@@ -420,6 +423,7 @@ func runCase(c *Case) (nontrivial bool, err error) {
 		}
 	}
 	// redirect sites
+	var redirs []redirTarget
 	for i, s := range c.Sites {
 		e := model(s)
 		if s.Host == "" {
@@ -470,10 +474,53 @@ func runCase(c *Case) (nontrivial bool, err error) {
 			if strings.HasPrefix(loc, "http://") || strings.Contains(loc, ":80/") {
 				return nontrivial, fmt.Errorf("%s: redirect points back at an HTTP address: %q", desc, loc)
 			}
+			if len(redirs) < 4 && !strings.ContainsAny(pr.Target, "?#") {
+				pre := "https://" + host
+				if target.port != httpsPort {
+					pre += ":" + target.port
+				}
+				redirs = append(redirs, redirTarget{hh, pre, s.addr()})
+			}
+		}
+	}
+	// The same redirect sites answered at the same time: every answer names its own request's host,
+	// path and query (the statement says "every request").
+	if len(redirs) > 0 {
+		const workers, each = 6, 10
+		errs := make(chan error, workers)
+		for g := 0; g < workers; g++ {
+			go func(g int) {
+				for k := 0; k < each; k++ {
+					rt := redirs[(g+k)%len(redirs)]
+					target := fmt.Sprintf("/w%d/%s?g=%d&k=%d", g, strings.Repeat(string(rune('a'+g)), 3+k), g, k)
+					resp, perr := plainGet(httpPort, rt.hostHdr, target)
+					if perr != nil {
+						errs <- fmt.Errorf("HARNESS: redirect site for %q, concurrent GET %s with Host %q: %v", rt.site, target, rt.hostHdr, perr)
+						return
+					}
+					if loc := resp.Header.Get("Location"); resp.StatusCode != 301 || loc != rt.prefix+target {
+						errs <- fmt.Errorf("redirect site for %q, GET %s with Host %q while %d other requests are in flight: status %d Location %q, want 301 %q",
+							rt.site, target, rt.hostHdr, workers-1, resp.StatusCode, loc, rt.prefix+target)
+						return
+					}
+				}
+				errs <- nil
+			}(g)
+		}
+		var first error
+		for g := 0; g < workers; g++ {
+			if e := <-errs; e != nil && first == nil {
+				first = e
+			}
+		}
+		if first != nil {
+			return nontrivial, first
 		}
 	}
 	return nontrivial, nil
 }
+
+type redirTarget struct{ hostHdr, prefix, site string }
 
 func keys(m map[string]bool) []string {
 	var k []string
@@ -582,6 +629,17 @@ func TestAutoHTTPS(t *testing.T) {
 }
 
 func replayCase(rf *vt.ReplayFile) error {
+	if rf.Sub == "flags" {
+		var fc FlagCase
+		if err := vt.Decode(rf, &fc); err != nil {
+			return err
+		}
+		_, err := runFlags(&fc)
+		if err != nil && strings.HasPrefix(err.Error(), "SKIP-REJECTED") {
+			return nil
+		}
+		return err
+	}
 	var c Case
 	if err := vt.Decode(rf, &c); err != nil {
 		return err
